@@ -1,6 +1,13 @@
 #!/bin/bash
-# Offline setup: builds the instrumenter and warms the Go build cache.
-set -e
+# Offline setup: builds the instrumenter and warms the Go build cache by building every harness once.
 cd "$(dirname "$0")"
 export GOFLAGS=-mod=mod GOPROXY=off GOSUMDB=off GOTOOLCHAIN=local
+mkdir -p .work/bin evidence replays
+go build -o .work/bin/vinstr ./engine/vinstr || { echo "INFRA-ERROR cannot build vinstr"; exit 2; }
+W=.work/setup.$$
+.work/bin/vinstr -repo "${VERIF_REPO:-/repo}" -out $W/instr -shim engine/shim >/dev/null || { echo "INFRA-ERROR instrumentation failed"; rm -rf $W; exit 2; }
+for p in checks/*/; do
+  go build -overlay $W/instr/overlay.json -o /dev/null ./$p || echo "warning: $p does not build"
+done
+rm -rf $W
 exit 0
